@@ -45,9 +45,10 @@ def natErr (s : St) (calls : List Call) (e : Int) : NatRes :=
   { ret := e, abort := false, pkt := { tocCfg := 0, lens := [], size := 0, hdr := [] }, dtx := false, ok := true,
     st := s, calls }
 
-/-- Settings and running state as the ctl layer and earlier calls leave them (the C11 ctl
-    invariant on the settings; the running fields are set by `opus_encoder_init` and by the
-    decision chain).  The tie checks it on the pre-state of every recorded call. -/
+/-- Settings and running state as the ctl layer and earlier calls leave them: the parts of C11's
+    `CtlInv` (settings) and `DInv` (running state of the decision chain) that the skeleton reads.
+    `OpusProofs/EncSkelInv.lean` proves it is preserved by every `opus_encode_native` call and implied by
+    C11's `EncInv` through the refinement map; the tie also checks it on every recorded pre-state. -/
 def stOk (s : St) : Bool :=
   decide ((s.fs = 8000 ∨ s.fs = 12000 ∨ s.fs = 16000 ∨ s.fs = 24000 ∨ s.fs = 48000) ∧
           (s.channels = 1 ∨ s.channels = 2) ∧
@@ -56,12 +57,15 @@ def stOk (s : St) : Bool :=
           (s.userForcedMode = OPUS_AUTO ∨ (MODE_SILK_ONLY ≤ s.userForcedMode ∧ s.userForcedMode ≤ MODE_CELT_ONLY)) ∧
           (s.userBandwidth = OPUS_AUTO ∨ (BW_NB ≤ s.userBandwidth ∧ s.userBandwidth ≤ BW_FB)) ∧
           (BW_NB ≤ s.maxBandwidth ∧ s.maxBandwidth ≤ BW_FB) ∧
-          (s.forceChannels = OPUS_AUTO ∨ s.forceChannels = 1 ∨ s.forceChannels = 2) ∧
-          (s.streamChannels = 1 ∨ s.streamChannels = 2) ∧
+          (s.forceChannels = OPUS_AUTO ∨ (1 ≤ s.forceChannels ∧ s.forceChannels ≤ s.channels)) ∧
+          (1 ≤ s.streamChannels ∧ s.streamChannels ≤ s.channels) ∧
           (BW_NB ≤ s.bandwidth ∧ s.bandwidth ≤ BW_FB) ∧
           (s.prevMode = 0 ∨ (MODE_SILK_ONLY ≤ s.prevMode ∧ s.prevMode ≤ MODE_CELT_ONLY)) ∧
           (0 ≤ s.complexity ∧ s.complexity ≤ 10) ∧ (0 ≤ s.lossPerc ∧ s.lossPerc ≤ 100) ∧
-          (s.mode = 0 ∨ (MODE_SILK_ONLY ≤ s.mode ∧ s.mode ≤ MODE_CELT_ONLY)))
+          (MODE_SILK_ONLY ≤ s.mode ∧ s.mode ≤ MODE_CELT_ONLY) ∧
+          (0 ≤ s.prevChannels ∧ s.prevChannels ≤ s.channels) ∧ (s.toMono = 0 ∨ s.toMono = 1) ∧
+          (s.first ≠ 0 → s.prevMode = 0) ∧
+          (s.application = APP_RESTRICTED_LOWDELAY → s.prevMode = 0 ∨ s.prevMode = MODE_CELT_ONLY))
 
 /-- Frame sizes `frame_size_select` lets through: 2.5, 5, 10, 20, 40, 60, 80, 100, 120 ms. -/
 def legalFrame (fs frameSize : Int) : Bool :=
@@ -492,9 +496,10 @@ def multiLoop (c : MultiCtx) (d : Decided) (isSil : Int) : Nat → Nat → List 
   | n + 1, i, fos, a =>
     multiLoop c d isSil n (i + 1) fos.tail (multiStep c d isSil i (fos.headD default) a)
 
-/-- State at loop entry (:1674-1678). -/
+/-- State at loop entry (:1685-1687; since fix 34e4f763 the user setting `force_channels` is no longer
+    overwritten when a stereo->mono transition is pending). -/
 def multiSt0 (s : St) : St :=
-  if s.toMono ≠ 0 then { s with forceChannels := 1 } else { s with prevChannels := s.streamChannels }
+  if s.toMono ≠ 0 then s else { s with prevChannels := s.streamChannels }
 
 /-- opus_encoder.c:1616-1747. -/
 def multiFrame (d : Decided) (isSil : Int) (frameSize outDataBytes cbr : Int) (fos : List FrameOr) : NatRes :=
